@@ -1164,6 +1164,15 @@ int32 matrixDtlsGetOutdata(ssl_t *ssl, unsigned char **buf)
  */
     if (ssl->outlen == 0 && ssl->appDataExch == 0)
     {
+        /* A session that has sent or received a fatal alert, or has
+           received close_notify, must not encode anything any more:
+           do not rebuild (and re-encrypt) its last handshake flight */
+        if (ssl->flags & SSL_FLAGS_ERROR || ssl->flags & SSL_FLAGS_CLOSED)
+        {
+            psTraceErrr("No flight resend on a closed/error-flagged sess\n");
+            *buf = NULL;
+            return PS_PROTOCOL_FAIL;
+        }
 
         /* And now the ugly part.  If we have been receiving records that
            are sent individually and we are successfully midway through an
